@@ -78,6 +78,15 @@ BAD_OPTS = {
     'fits': [{'header': 5}, {'bogus': 1}],
 }
 
+# VALID options, falsy values included (an option must reach the serialiser as given: the destination holds
+# serialize(regions, **the same options))
+GOOD_OPTS = {
+    'ds9': [{'precision': 0}, {'precision': 3}, {'precision': 12}],
+    'crtf': [{'fmt': '.3f'}, {'radunit': 'arcsec'}, {'coordsys': 'galactic'}],
+    # (a caller's header REPLACES the default one: it has to name the extension itself to stay a region file)
+    'fits': [{'header': {'EXTNAME': 'REGION', 'OBSERVER': 'nobody'}}],
+}
+
 # bad options that must make every non-empty write fail (see the oracle)
 MUST_FAIL = {
     'ds9': [{'precision': 'x'}, {'precision': -1}, {'precision': 2.5}, {'bogus': 1}],
@@ -310,7 +319,7 @@ class Check(PropertyCheck):
                 n, pos = 1, (None if pos is None else min(pos, 1))
             items = base_list(fmt, n)
             positions = []
-            if inj != 'none' and inj != 'opts':
+            if inj not in ('none', 'opts', 'goodopts'):
                 for _ in range(npos):
                     k = rng.randint(0, len(items)) if pos is None else pos
                     items.insert(k, dict(INJECT[inj]))
@@ -340,6 +349,15 @@ class Check(PropertyCheck):
                     for o in BAD_OPTS[fmt]:
                         for _ in range(mult):
                             cases.append(mk(fmt, state, ow, inj='opts', opts=dict(o), n=rng.randint(0, 2)))
+                    for o in GOOD_OPTS[fmt]:
+                        c = mk(fmt, state, ow, inj='goodopts', opts=dict(o), n=rng.randint(1, 3),
+                               fmt_arg=rng.choice(['given', 'infer']))
+                        if o == {'precision': 0}:
+                            # sizes of at least one printed unit (a size that prints as 0 cannot be read back: F19 of C09)
+                            c['items'] = [{'t': 'pc', 'x': 1.5, 'y': 2.25, 'r': 3.5},
+                                          {'t': 'sc', 'frame': 'galactic', 'lon': 120.0, 'lat': 5.0, 'r': 1.25}][:max(1, len(c['items']))]
+                            c['api'] = 'Regions'
+                        cases.append(c)
         # 2. a failing element at EVERY position of lists of every length up to N, Region.write for singletons
         nmax = 3 if tier == 'quick' else 6
         for fmt in FORMATS:
@@ -494,6 +512,19 @@ class Check(PropertyCheck):
                     os.symlink(os.path.join(d, 'mid.lnk'), dest)
                 elif st == 'loop':       # dest -> dest (ELOOP)
                     os.symlink(dest, dest)
+                if case.get('prelude', True):
+                    # history: an EARLIER write in this process had its own options (a FITS header that renames the
+                    # extension, a DS9 precision, CRTF units); none of them may colour the write under test
+                    try:
+                        scratch = os.path.join(d, 'earlier.fits')
+                        Regions([build({'t': 'pc', 'x': 1.0, 'y': 2.0, 'r': 3.0})]).write(
+                            scratch, format='fits', overwrite=True, header={'EXTNAME': 'SRCREG', 'OBSERVER': 'earlier'})
+                        os.remove(scratch)
+                        scratch = os.path.join(d, 'earlier.reg')
+                        Regions([build({'t': 'pc', 'x': 1.0, 'y': 2.0, 'r': 3.0})]).write(scratch, format='ds9', overwrite=True, precision=1)
+                        os.remove(scratch)
+                    except Exception:
+                        pass
                 before = snapshot(d)
                 regs = [build(s) for s in specs]
                 kw = dict(case['opts'])
